@@ -195,7 +195,7 @@ def r3_positions(ctx):
                 if len(c.args) != len(sig):
                     bad.append('%d arguments for %d parameters' % (len(c.args), len(sig)))
                 yield Ob(km('%s:%s %s(...)' % (name, q, meth)), not bad, ctx.loc(m, c), '; '.join(bad))
-    if n_calls < 8:
+    if n_calls < 6:
         raise AnalysisError('only %d add_seg/walk call sites found' % n_calls)
     # the signatures themselves
     f = ctx.func('error_handler', 'err_handler.add_seg')
